@@ -12,12 +12,17 @@ import (
 // attach installs the simulator behind the seams of the overlay build.
 func (w *W) attach() {
 	w.clock = newSimClock(w)
+	if raceEnabled {
+		// race world: only its race reports are used, never its bytes. The clock, pool and
+		// map-order hooks keep shared state of their own, which the race detector would
+		// (rightly) see as unsynchronised between tasks, so the real ones run there.
+		slog.VerifYield = func(site int) { w.yield(ySiteFine + site) }
+		return
+	}
 	slog.VerifNow = w.clock.Now
 	stringtool.VerifNow = w.clock.Now
-	if !raceEnabled {
-		w.pool = newSimPool(w)
-		slog.VerifPool = w.pool
-	}
+	w.pool = newSimPool(w)
+	slog.VerifPool = w.pool
 	slog.VerifMapOrder = w.mapOrder
 	slog.VerifYield = func(site int) { w.yield(ySiteFine + site) }
 }
